@@ -349,6 +349,20 @@ def run(ctx):
             ctx.check("C04.order", nf, loop.iter, ok, msg, expr=f"{kind} iteration source",
                       site=f"NodeFor.evaluate: {kind[2:].lower()} -> {'payload order' if want == 'payload' else 'sorted view'}")
 
+    # comprehensions draw their elements from getCollectionValue: for a map that must be the order of the sorted
+    # keys as well - for the keys, for the values (values in KEY order, not sorted by value) and for the entries
+    from .common import collection_sources
+    gcv = model.func(P, "nodes", "getCollectionValue")
+    rows = collection_sources(model, P)
+    if rows is None:
+        ctx.broken("getCollectionValue", "kind tests / results not found")
+    for kind, r, ok, t, by_value in rows:
+        ctx.check("C04.order", gcv, r, ok,
+                  f"a comprehension over a {'set' if kind == 'isSet' else 'map'} draws `{t[:70]}`: "
+                  f"{'the values sorted by value, not in the order of their keys - ' if by_value else ''}"
+                  f"not the sorted order the for statement uses, so the comprehension and its explicit loop differ",
+                  site=f"getCollectionValue ({kind[2:].lower()}): {t[:60]}")
+
     # ---------------------------------------------------------------- paired comprehensions
     nodes = model.module(P, "nodes")
     for c in sorted(nodes.classes.values(), key=lambda c: c.name):
@@ -375,3 +389,33 @@ def run(ctx):
             ctx.check("C04.pair", m, st_, ok,
                       f"{c.name}.evaluate mixes the fields of both generators in one statement: `{norm(st_)[:90]}`",
                       site=f"{c.name}.evaluate: {norm(st_)[:70]}")
+    # the same pairing where the nodes are built: constructor fields take their own parameter, and the parser hands
+    # generator-1 things to the ...1 parameters and generator-2 things to the ...2 parameters
+    parser_mod = model.module(P, "parser")
+    for c in sorted(nodes.classes.values(), key=lambda c: c.name):
+        if not (c.name.endswith("Parallel") or c.name.endswith("Product")):
+            continue
+        init = c.methods.get("__init__")
+        if init is None:
+            continue
+        params = init.params[1:]
+        for a in ast.walk(init.node):
+            if isinstance(a, ast.Assign) and isinstance(a.targets[0], ast.Attribute) and norm(a.targets[0].value) == "self" \
+                    and re.search(r"[12]$", a.targets[0].attr) and isinstance(a.value, ast.Name):
+                ctx.check("C04.pair", init, a, a.value.id == a.targets[0].attr,
+                          f"{c.name}.__init__ stores parameter `{a.value.id}` in field `{a.targets[0].attr}`",
+                          site=f"{c.name}.__init__: self.{a.targets[0].attr} = {a.targets[0].attr}")
+        for f in parser_mod.funcs.values():
+            for call in ast.walk(f.node):
+                if not (isinstance(call, ast.Call) and isinstance(call.func, ast.Name) and call.func.id == c.name):
+                    continue
+                for pn, arg in zip(params, call.args):
+                    mm = re.search(r"([12])$", pn)
+                    if not mm or not isinstance(arg, ast.Name):
+                        continue
+                    second = arg.id.endswith("2")
+                    ok = second == (mm.group(1) == "2")
+                    ctx.check("C04.pair", f, arg, ok,
+                              f"{c.name}(..): parameter `{pn}` (generator {mm.group(1)}) receives `{arg.id}`, which "
+                              f"belongs to generator {'2' if second else '1'}",
+                              expr=f"{c.name}({pn}={arg.id})", site=f"{f.qual}: {c.name}({pn}=<generator {mm.group(1)}>)")
